@@ -5,5 +5,6 @@ CONSTANTS
   MaxPend = 1
   Threads = {"req", "upd", "log"}
   UseLock = FALSE
+  CheckRunning = TRUE
 INVARIANT LinesWhole
 CHECK_DEADLOCK FALSE
